@@ -94,6 +94,8 @@ func ModelOp(seq ansi.Sequence, st term.VerifState) (f string, p, q int) {
 				return "alton", 0, 0
 			case key[0] == '?' && mode == 1049:
 				return "altoff", 0, 0
+			case key[0] == '?' && (mode == 47 || mode == 1047 || mode == 1048):
+				return "?", 0, 0 // xterm's other screen-switching / cursor-saving modes: outside the model
 			}
 			return "nop", 0, 0
 		}
